@@ -2,7 +2,7 @@
    Only statements, `exact`, Print Assumptions and non-vacuity examples. *)
 From Coq Require Import List Bool Arith Reals Lra Sorted.
 Import ListNotations.
-From PS Require Import Num RLemmas Valid ModelKernels ModelFuncs ModelAPI Spec Lem_Df.
+From PS Require Import Num RLemmas Valid ModelKernels ModelFuncs ModelAPI Spec Lem_Df Lem_Smooth.
 Local Open Scope R_scope.
 
 Local Notation x_of e := (fst (fst e)).
@@ -67,6 +67,50 @@ Theorem C11_plottable_k0 : forall f,
 Proof. exact df_plot0. Qed.
 Print Assumptions C11_plottable_k0.
 
+(* smoothing window k > 0: each plotted value is the mean over the entry's own unit contributions
+   and the nearest contributions on either side, each side with a budget of (k+1) profiles' worth
+   of multiplicity minus the entry's own ([smooth_spec]: whole entries while the budget lasts, then
+   the fitting fraction of the next one); an entry whose multiplicity already reaches the budget
+   is plotted as y/mp; values stay in [0,1] *)
+Theorem C11_plottable_smoothing : forall (f : list (R * R * R)) k, (0 < k)%nat -> Forall (fun e => 0 < d_mp e) f ->
+  df_plottable ROps f k =
+  (map (@d_x R) f,
+   map (fun i => smooth_spec (INR (k + 1) * d_mp (nth 0 f (0, 0, 0))) (rev (firstn i f)) (skipn (S i) f) (nth i f (0, 0, 0)))
+       (seq 0 (length f))).
+Proof. exact df_plottable_spec. Qed.
+Print Assumptions C11_plottable_smoothing.
+Theorem C11_smoothing_large_multiplicity : forall E l r (e : R * R * R), E <= d_mp e -> smooth_spec E l r e = d_y e / d_mp e.
+Proof. exact smooth_large_mp. Qed.
+Print Assumptions C11_smoothing_large_multiplicity.
+Theorem C11_smoothing_range : forall (f : list (R * R * R)) k, Forall (fun e => 0 < d_mp e /\ 0 <= d_y e <= d_mp e) f ->
+  Forall (fun v => 0 <= v <= 1) (snd (df_plottable ROps f k)).
+Proof. exact smooth_range. Qed.
+Print Assumptions C11_smoothing_range.
+
 (* non-vacuity: profiles with an event on an edge time and one without events *)
 Example C11_nonvacuous : wf_df [(0,1,1);(0,1,1);(1/2,0,1);(1,2,2);(1,2,2)] /\ wf_df [(0,1,1);(1,1,1)].
 Proof. split; [exact wf_df_ex1 | exact wf_df_ex2]. Qed.
+
+(* ---- executed instance (Q, extracted to OCaml and run against /repo) = the real-number functions
+   the theorems above are about: kernel-checked parametricity bridge (Bridge.v).  qL = map Q2R etc. ---- *)
+From Coq Require Import QArith Qreals.
+From PS Require Import Bridge.
+Local Close Scope Q_scope.
+Theorem C11_exec_df_add_transfer : forall f g : list dentry, rmap (map q3) (df_add QOps f g) = df_add ROps (map q3 f) (map q3 g).
+Proof. exact df_add_transfer. Qed.
+Print Assumptions C11_exec_df_add_transfer.
+Theorem C11_exec_df_integral_transfer : forall (f : list dentry) (iv : ivspec), rmap q2 (df_integral QOps f iv) = df_integral ROps (map q3 f) (ivmap Q2R iv).
+Proof. exact df_integral_transfer. Qed.
+Print Assumptions C11_exec_df_integral_transfer.
+Theorem C11_exec_df_avrg_transfer : forall (f : list dentry) (iv : ivspec) (normalize : bool), rmap Q2R (df_avrg QOps f iv normalize) = df_avrg ROps (map q3 f) (ivmap Q2R iv) normalize.
+Proof. exact df_avrg_transfer. Qed.
+Print Assumptions C11_exec_df_avrg_transfer.
+Theorem C11_exec_df_plottable_transfer : forall (f : list dentry) (k : nat), qLL (df_plottable QOps f k) = df_plottable ROps (map q3 f) k.
+Proof. exact df_plottable_transfer. Qed.
+Print Assumptions C11_exec_df_plottable_transfer.
+Theorem C11_exec_df_add_spec_transfer : forall f g : list (Q * Q * Q), map q3 (df_add_spec QOps f g) = df_add_spec ROps (map q3 f) (map q3 g).
+Proof. exact df_add_spec_transfer. Qed.
+Print Assumptions C11_exec_df_add_spec_transfer.
+Theorem C11_exec_df_integral_spec_transfer : forall (f : list (Q * Q * Q)) (iv : ivspec), q2 (df_integral_spec QOps f iv) = df_integral_spec ROps (map q3 f) (ivmap Q2R iv).
+Proof. exact df_integral_spec_transfer. Qed.
+Print Assumptions C11_exec_df_integral_spec_transfer.
